@@ -44,9 +44,6 @@ PARTIAL BY NATURE — carried by the correspondence run with real children only:
 namespace Verif.Props.C16
 open Verif.Gen.Timing Verif.Model.Shutdown
 
-/-- the translator located the bound of the stdout drain (or established that there is no drain) -/
-theorem c16_drain_translated : Verif.Gen.Shutdown.translatable = true := by decide
-
 theorem c16_translated : graceTranslatable = true := by decide
 
 /-- "the two one-second grace periods" -/
@@ -197,22 +194,6 @@ theorem c16_leave_sound (os : OS) (p : ExitPath) (c : ChildSpec) (l : Load)
     exact c16_bounded_two_seconds _ _ _ _
   · show (finish Design.sound os p _).child = .reaped
     rw [finish_sound]
-    exact c16_reaped os p _ hkill hwait
-
-/-- ... and when a grandchild holds the dead child's stdout open: still reaped, and bounded by the
-two grace periods plus the drain bound. -/
-theorem c16_leave_sound_held (os : OS) (p : ExitPath) (c : ChildSpec) (l : Load)
-    (hkill : os.killDelay < graceKillMs) (hwait : os.waitReaps = true) :
-    ∃ t, leave Design.sound os p c l = some t ∧ t.duration ≤ 2000 + Verif.Gen.Shutdown.drainMs ∧ t.child = .reaped := by
-  obtain ⟨t, ht, hb⟩ := c16_leave_bounded Design.sound 0 rfl os p c l
-  refine ⟨t, ht, ?_, ?_⟩
-  · have := c16_grace_periods
-    split at hb <;> omega
-  · obtain ⟨f, hf, hle⟩ := flushPhase_le Design.sound 0 rfl p c l
-    simp only [leave, hf, Option.some.injEq] at ht
-    subst ht
-    show (drainPhase c (finish Design.sound os p _)).child = .reaped
-    rw [drain_child, finish_sound]
     exact c16_reaped os p _ hkill hwait
 
 /-- **An unbounded wait for the writer, as a theorem.**  If the exit waits without bound for the
